@@ -20,6 +20,7 @@ import NumbersModel.Drv.Layout
 import NumbersModel.Drv.ObjectStore
 import NumbersModel.Drv.Border
 import NumbersModel.Drv.Sizes
+import NumbersModel.Drv.TablePipeline
 
 open NumbersModel.Drv
 
@@ -51,6 +52,7 @@ def dispatch (line : String) : String :=
     | "style" :: rest => handleStyle rest
     | "sizes" :: rest => handleSizes rest
     | "labels" :: rest => handleLabels rest
+    | "table" :: rest => handleTable rest
     | _ => none
   match r with
   | some s => s
